@@ -103,6 +103,26 @@ func (st *Std) Cur() *Func {
 	return st.F
 }
 
+// CurCall returns the call expression through which the function being
+// evaluated inline was entered (nil in the root function).
+func (st *Std) CurCall() *ast.CallExpr {
+	if n := len(st.frames); n > 0 {
+		return st.frames[n-1].call
+	}
+	return nil
+}
+
+// IsFrameParam reports whether o is a parameter (or the receiver) of a function
+// currently being evaluated inline.
+func (st *Std) IsFrameParam(o types.Object) bool {
+	for _, fr := range st.frames {
+		if _, ok := fr.bind[o]; ok {
+			return true
+		}
+	}
+	return false
+}
+
 // CallResult returns the classification of result i of an inlined call in
 // state s: "nil"/"nonnil" for errors, "true"/"false" for booleans, "" unknown.
 func (st *Std) CallResult(call *ast.CallExpr, i int, s S) string {
@@ -946,7 +966,7 @@ func (st *Std) inline(call *ast.CallExpr, n ast.Node, s S, cl *Client) []S {
 // results) of a callee whose body spans [lo, hi].
 func (st *Std) stripLocals(s2 S, lo, hi token.Pos) S {
 	for _, k := range s2.Keys() {
-		if at := strings.LastIndex(k, "@"); at >= 0 && (strings.HasPrefix(k, "v:") || strings.HasPrefix(k, "nn:") || strings.HasPrefix(k, "ev:") || strings.HasPrefix(k, "q:") || strings.HasPrefix(k, "bv:") || strings.HasPrefix(k, "x:")) {
+		if at := strings.LastIndex(k, "@"); at >= 0 && (strings.HasPrefix(k, "v:") || strings.HasPrefix(k, "nn:") || strings.HasPrefix(k, "ev:") || strings.HasPrefix(k, "q:") || strings.HasPrefix(k, "bv:") || strings.HasPrefix(k, "x:") || strings.HasPrefix(k, "sy:")) {
 			var pos int
 			fmt.Sscanf(k[at+1:], "%d", &pos)
 			if token.Pos(pos) >= lo && token.Pos(pos) <= hi {
